@@ -131,9 +131,6 @@ func judge(c Case, w *vkit.W) {
 	if fb, err := size.DefaultFormatter(nil, s, size.FormatPretty); err == nil {
 		w.RetainBytes(c, "DefaultFormatter(nil)", fb, pretty)
 	}
-	if got := s.BytesString(); got != strconv.FormatUint(c.S, 10) {
-		w.Fail(c, "bytes-string", fmt.Sprintf("Size(%d).BytesString() = %q", c.S, got))
-	}
 }
 
 func nontrivial(s uint64) bool {
